@@ -281,7 +281,9 @@ func (t *collationSortedTree[K, V]) Prefix(p K) iter.Seq2[K, V] {
 
 	root := t.root
 	if t.root.pointer != nil {
-		root = lowestCommonParent[V, *collateLeafNode[V]](root, colKey)
+		// keys that start with p share the primary weights of p; the other
+		// levels of p's key say nothing about them
+		root = lowestCommonParent[V, *collateLeafNode[V]](root, primaryWeights(colKey))
 	}
 
 	hasPrefix := func(k K, v V) bool {
@@ -399,3 +401,20 @@ func (t *collationSortedTree[K, V]) TopK(k uint) iter.Seq2[K, V] {
 }
 
 func (t *collationSortedTree[K, V]) Size() int { return t.size }
+
+// primaryWeights returns the leading primary-level weights of a collation key
+// (2 bytes each, or 3 bytes when the first one has its high bit set), i.e.
+// everything before the first 00 00 level separator.
+func primaryWeights(colKey []byte) []byte {
+	i := 0
+	for i+1 < len(colKey) {
+		if colKey[i]&0x80 != 0 {
+			i += 3
+		} else if colKey[i] == 0 && colKey[i+1] == 0 {
+			break
+		} else {
+			i += 2
+		}
+	}
+	return colKey[:min(i, len(colKey))]
+}
